@@ -57,6 +57,13 @@ func (c *Check) add(o Obligation) {
 		c.seen[id] = 1
 	}
 	c.obls = append(c.obls, o)
+	if os.Getenv("KX_TRACE") != "" && strings.Contains(o.Key+o.Rule, os.Getenv("KX_TRACE")) {
+		st := "ok  "
+		if !o.OK {
+			st = "FAIL"
+		}
+		fmt.Fprintf(os.Stderr, "trace %s %s %s [%s] %s\n", st, o.Rule, o.Key, o.Pos, o.Detail)
+	}
 }
 
 // OK records a discharged obligation.
